@@ -45,6 +45,8 @@ Definition grades_reverse := [2; 3].
 Definition grades_involute := [1; 3].
 Definition grades_conjugate := [1; 2].
 
+Inductive dual_kind := KAuto | KPolarity | KHodge | KUnknown.
+
 Section Ops.
   Context {R : Type} (O : ops R).
 
@@ -135,6 +137,25 @@ Section Ops.
     else Err EOther.                       (* codegen returns None: do_codegen fails *)
   Definition unpolarity (A : alg) (x : mv R) : mv R := gp A x (pss_mv A).
 
+  (* MultiVector.dual(kind) / undual(kind): polarity for r = 0, Hodge for r = 1 *)
+  Definition alg_r (A : alg) : nat := count_sig 0 (a_sig A).
+  Definition dual (A : alg) (k : dual_kind) (x : mv R) : res (mv R) :=
+    match k with
+    | KPolarity => polarity A x
+    | KHodge => Ok (hodge A x)
+    | KAuto => if Nat.eqb (alg_r A) 0 then polarity A x
+               else if Nat.eqb (alg_r A) 1 then Ok (hodge A x) else Err EOther
+    | KUnknown => Err EValue
+    end.
+  Definition undual (A : alg) (k : dual_kind) (x : mv R) : res (mv R) :=
+    match k with
+    | KPolarity => Ok (unpolarity A x)
+    | KHodge => Ok (unhodge A x)
+    | KAuto => if Nat.eqb (alg_r A) 0 then Ok (unpolarity A x)
+               else if Nat.eqb (alg_r A) 1 then Ok (unhodge A x) else Err EOther
+    | KUnknown => Err EValue
+    end.
+
   (* MultiVector.grade( grades ): stored coefficients of the requested grades, canonical order *)
   Definition grade_sel (A : alg) (grades : list nat) (x : mv R) : res (mv R) :=
     ks <- indices_for_grades A grades ;;
@@ -142,3 +163,16 @@ Section Ops.
 End Ops.
 
 Definition mv_eqb (x y : mv Z) : bool := list_eqb (pair_eqb Z.eqb Z.eqb) x y.
+
+(* observation level of the product properties: the same coefficient on every blade and the same
+   SET of stored blades (order of storage is not observed) *)
+Definition mv_same (A : alg) (x y : mv Z) : bool :=
+  forallb (fun k => Z.eqb (coeff Zops k x) (coeff Zops k y) && Bool.eqb (zin k (keys x)) (zin k (keys y))) (canon_keys A)
+  && forallb (fun k => zin k (canon_keys A)) (keys x) && forallb (fun k => zin k (canon_keys A)) (keys y)
+  && Nat.eqb (length x) (length y).
+(* only the coefficients (absent = 0) *)
+Definition mv_equiv (A : alg) (x y : mv Z) : bool :=
+  forallb (fun k => Z.eqb (coeff Zops k x) (coeff Zops k y)) (canon_keys A)
+  && forallb (fun k => zin k (canon_keys A)) (keys x) && forallb (fun k => zin k (canon_keys A)) (keys y).
+Definition resmv_same (A : alg) (x y : res (mv Z)) : bool :=
+  match x, y with Ok a, Ok b => mv_same A a b | Err a, Err b => err_eqb a b | _, _ => false end.
